@@ -2,8 +2,8 @@
    Pinned statements at the level the model reaches today: the LineReader primitives.  A give-up without a parked I/O
    error reports the current line number and column = position - line start + 1; line_at_offset moves the line start to
    position + offset and counts one line.  The invariant that ties line start / line number to the LF bytes of the
-   input for the whole DIMACS parsers is pinned in the CnfSafe section once proved; AIGER/BTOR2 locations are checked
-   by the location oracle (partial; known finding K1 for binary AIGER). *)
+   input for the whole DIMACS parsers is pinned in the CnfSafe section below, the one for AIGER (ascii and binary) and
+   BTOR2 in the last section; all of them are cross-checked by the location oracles of the harness. *)
 From Flussab Require Import Base Parsed Reader Prog Text ProgProofs ScanProofs Cnf CnfProofs ErrProofs.
 
 Theorem C08_give_up_column : forall pos lr v,
@@ -92,12 +92,12 @@ Example C08_unterminated_comment_line :
 Proof. eexists. vm_compute. reflexivity. Qed.
 
 (* ------------------------------------------------------------------ *)
-(* AIGER and BTOR2, end to end, every admissible run (AigerSafe.v, Btor2Safe.v).  ASCII AIGER and BTOR2: the reported
-   (line, column) is exactly line_col_of S pos for a position pos of the input (no exception at all).  Binary AIGER:
-   the code does not count LF bytes inside the and-gate section (known finding K1), so loc_ok holds for the input with
-   those bytes masked, and for the input itself when the and-gate section contains no byte 10; the witness that it fails
-   otherwise is pinned. *)
-From Flussab Require Import Aiger AigerProofs AigerSafe AigerLimits Btor2 Btor2Proofs Btor2Safe.
+(* AIGER and BTOR2, end to end, every admissible run (AigerSafe.v, Btor2Safe.v).  ASCII AIGER, binary AIGER and BTOR2:
+   the reported (line, column) is exactly line_col_of S pos for a position pos of the input (no exception at all).
+   For binary AIGER this holds since flussab 530b52f: a byte 10 that ends a delta code of the and-gate section is
+   counted as a line break (before: defect D15, the former known finding K1; its witness is pinned below as a positive
+   example). *)
+From Flussab Require Import Consts Aiger AigerProofs AigerSafe AigerLimits Btor2 Btor2Proofs Btor2Safe.
 
 Theorem C08_aag_error_location : forall fuel maxc S fail ohd items l c lr' v',
   Forall (fun b => b < 256) S -> nlen S < 2 ^ 62 -> (length S < fuel)%nat ->
@@ -113,21 +113,19 @@ Theorem C08_aag_error_position : forall fuel maxc S fail ohd items l c lr' v',
 Proof. exact parse_aag_error_position. Qed.
 Print Assumptions C08_aag_error_position.
 
-Theorem C08_aig_error_location_masked : forall fuel maxc S fail ohd items l c lr' v',
+Theorem C08_aig_error_location : forall fuel maxc S fail ohd items l c lr' v',
   Forall (fun b => b < 256) S -> nlen S < 2 ^ 62 -> (length S < fuel)%nat ->
-  aruns (parse_aig fuel maxc lrs_init) (view_init S fail) (ADone (ohd, items, FErr (ESyntax l c), lr') v') ->
-  exists ba bb, ba <= bb /\ bb <= nlen S /\ loc_ok (mask S ba bb) l c /\
-                (ba = bb \/ AndSection fuel maxc lrs_init (view_init S fail) ba bb).
-Proof. exact parse_aig_error_location_masked. Qed.
-Print Assumptions C08_aig_error_location_masked.
-
-Theorem C08_aig_error_location_without_lf_in_gates : forall fuel maxc S fail ohd items l c lr' v',
-  Forall (fun b => b < 256) S -> nlen S < 2 ^ 62 -> (length S < fuel)%nat ->
-  (forall ba bb, AndSection fuel maxc lrs_init (view_init S fail) ba bb -> nolf S ba bb) ->
   aruns (parse_aig fuel maxc lrs_init) (view_init S fail) (ADone (ohd, items, FErr (ESyntax l c), lr') v') ->
   loc_ok S l c.
 Proof. exact parse_aig_error_location. Qed.
-Print Assumptions C08_aig_error_location_without_lf_in_gates.
+Print Assumptions C08_aig_error_location.
+
+Theorem C08_aig_error_position : forall fuel maxc S fail ohd items l c lr' v',
+  Forall (fun b => b < 256) S -> nlen S < 2 ^ 62 -> (length S < fuel)%nat ->
+  aruns (parse_aig fuel maxc lrs_init) (view_init S fail) (ADone (ohd, items, FErr (ESyntax l c), lr') v') ->
+  exists pos, pos <= nlen S /\ (l, c) = line_col_of S pos.
+Proof. exact parse_aig_error_position. Qed.
+Print Assumptions C08_aig_error_position.
 
 Theorem C08_btor2_error_location : forall fuel S fail items l c lr' v',
   Forall (fun b => b < 256) S -> nlen S < 2 ^ 62 -> (length S < fuel)%nat ->
@@ -136,7 +134,11 @@ Theorem C08_btor2_error_location : forall fuel S fail items l c lr' v',
 Proof. exact parse_btor2_error_location. Qed.
 Print Assumptions C08_btor2_error_location.
 
-(* the K1 witness: "aig 5 0 0 0 5\n" + 02 00 04 00 06 00 08 00 0A 00 + "x": reported 2:11, the x is at 3:2 *)
-Theorem C08_aig_K1_witness : ~ loc_ok k1_bytes 2 11.
-Proof. exact k1_not_loc_ok. Qed.
-Print Assumptions C08_aig_K1_witness.
+(* the witness of the former K1: "aig 5 0 0 0 5\n" + 02 00 04 00 06 00 08 00 0A 00 + "x": the x is at 3:2 and is reported
+   there (before the fix: 2:11, which is no position of the input) *)
+Example C08_aig_lf_in_gates_example :
+  (exists v', srun (parse_aig 100 max_code_u8 lrs_init) (view_init k1_bytes None)
+              = ADone (Some (mk_header 5 0 0 0 5 0 0 0 0), [IOAnd 0 0; IOAnd 0 0; IOAnd 0 0; IOAnd 0 0; IOAnd 0 0],
+                       FErr (ESyntax 3 2), {| l_line := 3; l_start := 23 |}) v') /\
+  line_col_of k1_bytes 24 = (3, 2) /\ ~ loc_ok k1_bytes 2 11.
+Proof. exact (conj k1_reported (conj k1_true_position k1_old_location_wrong)). Qed.
